@@ -56,7 +56,12 @@ func (c *ctlConn) SetDeadline(t time.Time) error      { return nil }
 func (c *ctlConn) SetReadDeadline(t time.Time) error  { return nil }
 func (c *ctlConn) SetWriteDeadline(t time.Time) error { return nil }
 
-const postDeadline = 15 * time.Second
+const postDeadline = 8 * time.Second
+
+// after this many hangs the remaining scenarios are skipped (each hang costs a full deadline)
+const maxPostHangs = 2
+
+var postHangs int
 
 // guarded runs f under recover; ok=false if it did not return within the deadline
 func guarded(f func()) (ok bool, panicked string) {
@@ -81,6 +86,10 @@ func guarded(f func()) (ok bool, panicked string) {
 
 func runPost(c *vh.Ctx, p postIn) {
 	in := input{S: "post", Post: &p}
+	if postHangs >= maxPostHangs {
+		c.Stat("post.skipped-after-hangs", 1)
+		return
+	}
 	certs()
 	name := tls.CipherSuiteName(p.Suite)
 	cert := certRSA
@@ -155,6 +164,7 @@ func runPost(c *vh.Ctx, p postIn) {
 	what := fmt.Sprintf("%s, peer sends %v then the transport ends (endpoint writes fail: %v)", p.cell(), p.Actions, p.FailWrite)
 	report := func(op string, ok bool, pan string) bool {
 		if !ok {
+			postHangs++
 			c.Violation("post-hang-"+op, fmt.Sprintf("%s: %s does not return within %v", what, op, postDeadline), "post", in)
 			return false
 		}
@@ -164,21 +174,50 @@ func runPost(c *vh.Ctx, p postIn) {
 		}
 		return true
 	}
+	// KeyUpdate-only scenarios are also compared with the lock-summary model (stream post)
+	kuOnly := p.Vers == tls.VersionTLS13 && !p.LateClose && len(p.Actions) > 0
+	var flags []string
+	for _, a := range p.Actions {
+		switch a {
+		case "ku1":
+			flags = append(flags, "true")
+		case "ku0":
+			flags = append(flags, "false")
+		default:
+			kuOnly = false
+		}
+	}
+	emit := func(returned bool, cls int, werr bool) {
+		if kuOnly {
+			c.Case("post", vh.Pair(vh.List0(flags, "bool"), vh.Bool(p.FailWrite),
+				vh.Pair(vh.Bool(returned), vh.Z(int64(cls)), vh.Bool(werr))), in, fmt.Sprintf("%s|%v|%v", p.cell(), p.Actions, p.FailWrite))
+		}
+	}
+	var readErr error
 	ok, pan := guarded(func() {
 		buf := make([]byte, 256)
 		for i := 0; i < 40; i++ {
 			if _, err := ep.Read(buf); err != nil {
+				readErr = err
 				return
 			}
 		}
 	})
 	if !report("read", ok, pan) {
+		emit(false, 0, false)
 		return
 	}
-	ok, pan = guarded(func() { ep.Write([]byte("x")) })
+	var writeErr error
+	ok, pan = guarded(func() { _, writeErr = ep.Write([]byte("x")) })
 	if !report("write", ok, pan) {
+		emit(false, 0, false)
 		return
 	}
+	cls := 3
+	if readErr != nil {
+		cls = classify(readErr)
+	}
+	emit(true, cls, writeErr != nil)
 	ok, pan = guarded(func() {
 		ep.GetHandshakeLog()
 		ep.ConnectionState()
